@@ -34,6 +34,26 @@ def make_params(rng, walltime="01:00:00", **over):
         kw["num_parallel_processes_per_node"] = rng.randint(1, 8)
     if rng.random() < 0.3:
         kw["try_add_blocked_jobs"] = rng.random() < 0.5
+    # every field of the public group model takes a non-default value now and then - including None where None is a documented setting
+    if rng.random() < 0.4:
+        kw["resource_monitor_interval"] = rng.choice([None, 1, 30])
+    if rng.random() < 0.3:
+        kw["resource_monitor_type"] = rng.choice(["aggregation", "periodic", "none"])
+    if rng.random() < 0.3:
+        kw["generate_reports"] = rng.random() < 0.5
+    if rng.random() < 0.2:
+        kw["dry_run"] = True
+    if rng.random() < 0.2:
+        kw["verbose"] = True
+    if rng.random() < 0.2:
+        kw["time_based_batching"] = True
+        kw.setdefault("num_parallel_processes_per_node", 4)
+    if rng.random() < 0.2:
+        kw["distributed_submitter"] = rng.random() < 0.5
+    if rng.random() < 0.2:
+        kw["node_setup_script"] = "setup.sh"
+    if rng.random() < 0.2:
+        kw["node_shutdown_script"] = "shutdown.sh"
     kw.update(over)
     return SubmitterParams(**kw)
 
@@ -141,6 +161,12 @@ def run_config(S, case):
                (j2.name, j2.command, set(j2.get_blocking_jobs()), j2.cancel_on_blocking_job_failure, j2.submission_group, j2.estimated_run_minutes,
                     j2.append_job_name, j2.append_output_dir):
                 failed.append(f"round trip changed job {j1.name}")
+        for g1, g2 in zip(cfg.submission_groups, back.submission_groups):
+            if g1.name != g2.name or g1.submitter_params != g2.submitter_params:
+                d1, d2 = g1.submitter_params.__dict__, g2.submitter_params.__dict__
+                failed.append(f"round trip changed group {g1.name}: " + ", ".join(f"{k}: {d1[k]!r} -> {d2.get(k)!r}" for k in d1 if d1[k] != d2.get(k)))
+        if len(cfg.submission_groups) != len(back.submission_groups):
+            failed.append("round trip changed the number of submission groups")
         if (cfg.setup_command, cfg.teardown_command, cfg.node_setup_command, cfg.node_teardown_command) != \
                 (back.setup_command, back.teardown_command, back.node_setup_command, back.node_teardown_command):
             failed.append("round trip changed a lifecycle command")
